@@ -348,6 +348,17 @@ Proof.
     + apply wf_with_cache; [apply cleanup_wf; apply Hwf|exact Hwf].
   - (* SetMode *) exact Hwf.
   - (* Restart *) cbn [fst]. apply wf_with_cache; [apply Hwf|exact Hwf].
+  - (* Copier *)
+    assert (forall s0 x, wf s0 -> wf (fst (let s1 := if writable s0 then with_primary s0 (cleanup (now s0) (primary s0)) else s0 in
+                                           (with_cache s1 (cleanup (now s0) (cache s1)), x : out)))) as Hc.
+    { intros s0 x H0. cbn [fst]. destruct (writable s0).
+      - apply wf_with_cache; [apply cleanup_wf; apply H0|]. apply wf_with_primary; [apply cleanup_wf; apply H0|exact H0].
+      - apply wf_with_cache; [apply cleanup_wf; apply H0|exact H0]. }
+    destruct (writable s) eqn:W.
+    + destruct (sync_any (primary s) (now s) f (cache s)) as [H|H]; rewrite H; apply Hc.
+      * apply wf_with_cache; [apply Hwf|exact Hwf].
+      * apply wf_with_cache; [apply mirror_of_wf|exact Hwf].
+    + apply Hc. exact Hwf.
   - (* Load *) destruct (read_source reports_none (pmode s)); try exact Hwf; destruct (load s u) as [[a b] c]; exact Hwf.
   - (* GetS *) destruct (read_source reports_none (pmode s)); try exact Hwf; destruct (get_signed s u t); exact Hwf.
   - (* Users *) destruct (read_source reports_none (pmode s)); exact Hwf.
@@ -463,10 +474,11 @@ Qed.
 (* with the primary truly unreachable nothing changes anywhere, whatever is attempted
    (Cleanup still purges expired rows of the local cache) *)
 Lemma dead_frozen s o : writable s = false -> (forall m, o <> SetMode m) ->
-  primary (fst (step s o)) = primary s /\ (o <> Cleanup -> cache (fst (step s o)) = cache s).
+  primary (fst (step s o)) = primary s /\ (o <> Cleanup -> (forall f, o <> Copier f) -> cache (fst (step s o)) = cache s).
 Proof.
   intros M Hm. destruct o; unfold step, step_gen, handler; rewrite ?M; simpl; auto.
   - split; [reflexivity|congruence].
+  - split; [reflexivity|]. intros _ H. exfalso. apply (H f). reflexivity.
   - destruct (read_source reports_none (pmode s)); auto; destruct (load s u) as [[a b] c]; auto.
   - destruct (read_source reports_none (pmode s)); auto; destruct (get_signed s u t); auto.
   - destruct (read_source reports_none (pmode s)); auto.
@@ -705,11 +717,11 @@ Lemma restart_keeps s :
   now (fst (step s Restart)) = now s /\ pmode (fst (step s Restart)) = pmode s.
 Proof. repeat split. Qed.
 
-(* operations that leave the cache alone and do not end an outage: everything except a copy, the
-   purge, the write-through of signed records and the primary coming back *)
+(* operations that leave the cache alone and do not end an outage: everything except a copy (alone or as a
+   turn of the copier), the purge, the write-through of signed records and the primary coming back *)
 Definition cache_quiet (o : op) : Prop :=
   match o with
-  | Sync _ | Cleanup | Upsert _ _ _ _ | DelSigned _ _ | SetMode Up => False
+  | Sync _ | Copier _ | Cleanup | Upsert _ _ _ _ | DelSigned _ _ | SetMode Up => False
   | _ => True
   end.
 
@@ -778,3 +790,86 @@ Lemma wiping_refuted : forall k w,
   snd (step (fst (run init h)) (Handler HAuthSave 1 12)) = OServed.
 Proof. intros [] []; vm_compute; repeat split; reflexivity. Qed.
 Local Close Scope N_scope.
+
+(* ------------------------------------------------------------------ the background copier *)
+(* one turn of the copier is the copy followed by the purge *)
+Lemma step_copier s f :
+  step s (Copier f) = (fst (step (fst (step s (Sync f))) Cleanup), snd (step s (Sync f))).
+Proof.
+  unfold step, step_gen. destruct (writable s) eqn:W.
+  - destruct (sync (primary s) (now s) f (cache s)) as [c ok]. cbn [fst snd]. reflexivity.
+  - cbn [fst snd]. reflexivity.
+Qed.
+
+Lemma handler_cache s h u b : cache (fst (handler true reports_none s h u b)) = cache s.
+Proof.
+  unfold handler.
+  destruct h; [destruct (read_source reports_none (pmode s)); [| |reflexivity]..|].
+  - destruct (load s u) as [[fd fc] cur]. destruct fc; [reflexivity|]. destruct (writable s); reflexivity.
+  - destruct (load s u) as [[fd fc] cur]. destruct fc; [reflexivity|]. destruct (writable s); reflexivity.
+  - destruct (load s u) as [[fd fc] cur]. destruct fd; [|reflexivity]. destruct fc; [reflexivity|]. destruct (writable s); reflexivity.
+  - destruct (load s u) as [[fd fc] cur]. destruct fd; [|reflexivity]. destruct fc; [reflexivity|]. destruct (writable s); reflexivity.
+  - reflexivity.
+  - reflexivity.
+  - destruct (writable s); reflexivity.
+Qed.
+
+(* the user profiles in the cache change only when a copy completes *)
+Lemma step_cache_profiles s o : completes o (snd (step s o)) = false ->
+  profiles (cache (fst (step s o))) = profiles (cache s).
+Proof.
+  destruct o; intro H;
+    try solve [unfold step, step_gen; cbn [fst]; first [destruct (writable s); reflexivity | reflexivity]].
+  - unfold step, step_gen in *. destruct (writable s); [|reflexivity].
+    destruct (sync_any (primary s) (now s) f (cache s)) as [E|E]; rewrite E in *; simpl in *; [reflexivity|discriminate].
+  - rewrite step_copier in *. cbn [fst snd] in *.
+    assert (profiles (cache (fst (step s (Sync f)))) = profiles (cache s)) as A.
+    { unfold step, step_gen in *. destruct (writable s); [|reflexivity].
+      destruct (sync_any (primary s) (now s) f (cache s)) as [E|E]; rewrite E in *; simpl in *; [reflexivity|discriminate]. }
+    rewrite <- A. unfold step at 1, step_gen. cbn [fst]. destruct (writable (fst (step s (Sync f)))); reflexivity.
+  - unfold step, step_gen. destruct (read_source reports_none (pmode s)); [destruct (load s u) as [[a b] c]..|]; reflexivity.
+  - unfold step, step_gen. destruct (read_source reports_none (pmode s)); [destruct (get_signed s u t)..|]; reflexivity.
+  - unfold step, step_gen. destruct (read_source reports_none (pmode s)); reflexivity.
+  - unfold step, step_gen. rewrite handler_cache. reflexivity.
+Qed.
+
+(* ... and then they are the primary's *)
+Lemma step_completes_profiles s o u : wf s -> completes o (snd (step s o)) = true ->
+  aget ukey_eqb u (profiles (cache (fst (step s o)))) = aget ukey_eqb u (profiles (primary s)).
+Proof.
+  intros [Hp _] H.
+  assert (forall f, snd (step s (Sync f)) = OSync true ->
+                    aget ukey_eqb u (profiles (cache (fst (step s (Sync f))))) = aget ukey_eqb u (profiles (primary s))) as A.
+  { intros f. unfold step, step_gen. destruct (writable s); [|discriminate].
+    destruct (sync_any (primary s) (now s) f (cache s)) as [E|E]; rewrite E; simpl; [discriminate|]. intros _.
+    destruct (mirror_of_mirrors (primary s) (now s) Hp) as [M _]. apply M. }
+  destruct o; cbn [completes] in H; try discriminate H.
+  - apply A. destruct (snd (step s (Sync f))) as [| | | | |[]| |]; try discriminate H. reflexivity.
+  - rewrite step_copier in *. cbn [fst snd] in *.
+    assert (snd (step s (Sync f)) = OSync true) as B by (destruct (snd (step s (Sync f))) as [| | | | |[]| |]; try discriminate H; reflexivity).
+    rewrite <- (A f B). unfold step at 1, step_gen. cbn [fst]. destruct (writable (fst (step s (Sync f)))); reflexivity.
+Qed.
+
+(* the cache is never more than one completed copy behind: at every moment of every history its user
+   profiles are those the primary held when the last copy completed (none before the first) *)
+Lemma ghost_inv ops : forall s g, wf s -> (forall u, aget ukey_eqb u (profiles (cache s)) = aget ukey_eqb u g) ->
+  forall u, aget ukey_eqb u (profiles (cache (fst (run_ghost s g ops)))) = aget ukey_eqb u (snd (run_ghost s g ops)).
+Proof.
+  induction ops as [|o r IH]; intros s g Hwf Hg u; [apply Hg|].
+  simpl. pose proof (step_wf s o Hwf) as Hwf1.
+  destruct (step s o) as [s1 x] eqn:E. simpl in Hwf1.
+  apply IH; [exact Hwf1|]. intro v.
+  destruct (completes o x) eqn:C.
+  - pose proof (step_completes_profiles s o v Hwf) as P. rewrite E in P. apply P. exact C.
+  - pose proof (step_cache_profiles s o) as P. rewrite E in P. simpl in P. rewrite (P C). apply Hg.
+Qed.
+
+Lemma copier_lag ops u :
+  aget ukey_eqb u (profiles (cache (fst (run_ghost init [] ops)))) = aget ukey_eqb u (snd (run_ghost init [] ops)).
+Proof. apply ghost_inv; [apply init_wf|reflexivity]. Qed.
+
+Lemma run_ghost_final ops : forall s g, fst (run_ghost s g ops) = fst (run s ops).
+Proof.
+  induction ops as [|o r IH]; intros s g; [reflexivity|].
+  rewrite run_cons_fst. simpl. destruct (step s o) as [s1 x]. apply IH.
+Qed.
